@@ -11,9 +11,9 @@ CLAIMED = {
    note="Bounds as stated. Locations containing '.', the decoder dispatch table, type IDs and conversions of sema/static/external type graphs and run-time type constructors are outside the claim.",
    design="5 C45"),
  "C42": dict(
-   text="Kernel: the canonical-order comparators of CCF's deterministic mode (bytewiseFieldSorter, bytewiseCadenceTypeIDSorter, bytewiseKeyValuePairSorter) on three arbitrary pairwise-distinct keys of 0..3 bytes are strict total orders (asymmetric, total, transitive) equal to the reference order, and agree with the predicates the decoder enforces (stringsAreSortedBytewise / bytesAreSortedBytewise), which reject duplicates; hence the sorted sequence and the encoding do not depend on input order.",
-   note="Keys <= 3 bytes. CBOR encoding/decoding, value round trips and decoder robustness (fxamacker/cbor, reflection-free but streaming over value graphs) are outside the claim.",
-   design="5 C42"),
+   text="CCF, scalar values and small containers: (1) round trip - for every value of each of the 14 fixed-width integer/Word/fixed-point kinds, Fix128/UFix128, Bool, Address (full width), Int/UInt (|x|<2^128), Int128/UInt128/Word128 (256-bit kinds in thorough), String and Path identifier (every valid UTF-8 text <=3 bytes), Optional(UInt8)/nil, arrays of <=2 UInt16, the real ccf.Encode followed by the real ccf.Decode - with fxamacker/cbor's stream encoder/decoder executed from source - succeeds and yields a value of the same kind and content; a dictionary of two entries with distinct symbolic keys encodes to the same bytes in both insertion orders and decodes to exactly those entries; (2) decoder robustness - ccf.Decode never panics on every byte string <=3 bytes, every 1..2 (thorough 3) bytes after a type-and-value head and after a simple-type tag, and 1 (thorough 2) bytes as the value of each of 30 scalar simple types; (3) the canonical-order comparators of deterministic mode on three arbitrary pairwise-distinct keys of 0..3 bytes are strict total orders equal to the reference order and agree with the predicates the strict decoder enforces (which reject duplicates).",
+   note="Part of C42: composites, events, type values, capabilities, type definitions (tag 129 messages), intersection/entitlement-set ordering inside types and inputs longer than the stated lengths are outside. The cbor library's package-level tables are initialised by executing the relevant slice of its init function; sync.Pool buffers are modelled as always reused.",
+   design="3 C42"),
  "C18": dict(
    text="Kernel: for the 24 numeric types, Bool, Address, Path (identifier <= 3 bytes) and String values with directly given content (<= 3 bytes): the real Equal equals mathematical equality and Less/LessEqual/Greater/GreaterEqual the mathematical order for every operand pair (so ==, < are an equivalence / total order consistent with each other), and HashInput bytes are identical exactly for equal values (natives: two symbolic values; big integers: the payload decodes back to the value and has the canonical length), including the scratch-buffer vs allocation branch.",
    note="Operands of equal type, full width (Int/UInt hash input: |x| < 2^128). String normalisation (NFC), characters, type values, enums, optionals, containers and the atree dictionary itself are outside the claim.",
@@ -23,8 +23,8 @@ CLAIMED = {
    note="Kernel of C06: structure is concrete on every path (the symbolic choices are forked), so the solver's work is constant evaluation of the path assertions; bound: 3 entitlements, <= 2 relations. The checker's member-access path and run-time authorization checks (programs) are outside.",
    design="3 C06"),
  "C32": dict(
-   text="Int (values.IntValue) and UInt + - * / % unary minus with operands up to 8 words, | ^ & << >> of Int, UInt, Int128, UInt128, Word128 (256-bit types in thorough) with operands up to 2 words and shifts < 256, and the two shift estimators alone for shifts < 2^20 against the exact length formula: the real operation runs with a harness gauge that sums the BigInt memory it meters (real estimators, real wiring); solver shows metered bytes >= 8 * word length of the result for every operand pair in the bound, word lengths handled symbolically without case split.",
-   note="Bounds: 8-word operands (int-mode), 2-word operands and shifts < 256 (bv-mode, big.Int model width 448). Metering order (before vs after computing) is not observable by the harness.",
+   text="Int (values.IntValue) and UInt + - * / % unary minus with operands up to 8 words, | ^ & << >> of Int, UInt, Int128, UInt128, Word128 (256-bit types in thorough) with operands up to 2 words and shifts < 256, the two shift estimators alone for shifts < 2^20 against the exact length formula, and the + - * / % estimators alone for symbolic operand lengths up to 65536 words (divisors < 100 words) against the mathematical result-length bounds: the real operation runs with a harness gauge that sums the BigInt memory it meters (real estimators, real wiring); solver shows metered bytes >= 8 * word length of the result for every operand pair in the bound, word lengths handled symbolically without case split.",
+   note="Bounds: 8-word operands (int-mode), 2-word operands and shifts < 256 (bv-mode, big.Int model width 448). Estimator-alone harnesses see only operand lengths (arbitrary values of that length). The recursive-division branch of the / % estimator (divisors >= 100 words: product of two symbolic lengths, solvers return unknown) is outside. Metering order (before vs after computing) is not observable by the harness.",
    design="3 C32"),
  "C21": dict(
    text="InclusiveRange for all 20 integer/Word element types: the real NewInclusiveRangeValueWithStep (construction fails exactly for step 0 / moving away from end), NewInclusiveRangeIterator + Next (first 3 (thorough 5) elements from construction, and one step from an arbitrary member position: a one-step induction over the position) and InclusiveRangeContains, against the exact arithmetic sequence in unbounded integers, for every start/end/step/needle of the type.",
@@ -68,7 +68,7 @@ CLAIMED = {
    text="LEB128: for every uint32/uint64/int32/int64 the real Append* followed by Read* (with arbitrary trailing bytes) returns the same integer and the encoded length, the encoding has the canonical length, and the decoders never crash or over-read on any buffer of <= 11 bytes; AppendUint32FixedLength for every length 0..5.",
    note="Part of C35 only: LEB128 (full integer width; decoder buffers <= 11 bytes) and the instruction codec: for every instruction type found in bbq/opcode by go/types, Encode then DecodeInstruction returns the same instruction with the same operands and consumes exactly the encoding (operand arrays of length 0..2, thorough 3), plus PatchJumpBytecode. Compilation determinism is outside the claim (compiler over program ASTs is not encodable).", design="3 C35"),
  "C51": dict(
-   text="Internal ordered collections against list models: the real common/orderedmap (Set/Delete/Get/Clear/Contains/Len, Oldest..Newest iteration order, ForAnyKey/ForAllKeys/KeySetIsDisjointFrom, from the zero value and from New()), common/persistent OrderedSet chains (Add/Contains/IsEmpty/ForEach order over up to 3 cloned levels) and common/bimap (Insert/Delete/DeleteInverse/Get/GetInverse stay a bijection) for every sequence of <=3 (thorough 4) operations with symbolic keys and values; no operation crashes.",
+   text="Internal ordered collections against list models: the real common/orderedmap (Set/Delete/Get/Clear/Contains/Len, Oldest..Newest iteration order, ForAnyKey/ForAllKeys/KeySetIsDisjointFrom, from the zero value and from New()), common/persistent OrderedSet chains (Add/Contains/IsEmpty/ForEach order over up to 3 cloned levels) and common/bimap (Insert/Delete/DeleteInverse/Get/GetInverse stay a bijection) for every sequence of <=3 operations (ordered map and set: 4 in thorough) with symbolic keys and values; no operation crashes.",
    note="Sequences of <=3 (4) operations; Go's builtin map is modelled as an association list with symbolic key equality. The interval tree (draws from global math/rand, no native replay), 'few thousand operations' and key types other than integers are outside.",
    design="3 C51"),
  "C37": dict(
